@@ -742,11 +742,19 @@ static inline aligned_t qutil_qsort_inner(struct qutil_qsort_iargs *a)
     while (furthest.rightwall > furthest.leftwall &&
            furthest.rightwall - furthest.leftwall > (2 * MT_LOOP_CHUNK)) {
         size_t offset = furthest.leftwall;
+        const size_t gap    = furthest.rightwall - furthest.leftwall;
 
         furthest = qutil_qsort_inner_partitioner(a->array + furthest.leftwall,
                                                  furthest.rightwall - furthest.leftwall + 1, pivot);
         furthest.leftwall  += offset;
         furthest.rightwall += offset;
+        if ((furthest.rightwall <= furthest.leftwall) ||
+            (furthest.rightwall - furthest.leftwall >= gap)) {
+            /* this pass did not narrow the gap (it moved neither wall), so the
+             * next one would do exactly the same: stop, the sequential pass
+             * below partitions whatever is left between the walls */
+            break;
+        }
     }
     /* data between furthest.leftwall and furthest.rightwall is unlikely to
      * be partitioned correctly */
@@ -1021,6 +1029,7 @@ static inline aligned_t qutil_aligned_qsort_inner(struct qutil_aligned_qsort_iar
     while (furthest.rightwall > furthest.leftwall &&
            furthest.rightwall - furthest.leftwall > (2 * MT_LOOP_CHUNK)) {
         size_t offset = furthest.leftwall;
+        const size_t gap    = furthest.rightwall - furthest.leftwall;
 
         furthest =
             qutil_aligned_qsort_inner_partitioner(a->array +
@@ -1030,6 +1039,13 @@ static inline aligned_t qutil_aligned_qsort_inner(struct qutil_aligned_qsort_iar
                                                   pivot);
         furthest.leftwall  += offset;
         furthest.rightwall += offset;
+        if ((furthest.rightwall <= furthest.leftwall) ||
+            (furthest.rightwall - furthest.leftwall >= gap)) {
+            /* this pass did not narrow the gap (it moved neither wall), so the
+             * next one would do exactly the same: stop, the sequential pass
+             * below partitions whatever is left between the walls */
+            break;
+        }
     }
     /* data between furthest.leftwall and furthest.rightwall is unlikely to
      * be partitioned correctly */
